@@ -284,6 +284,9 @@ class TrackWorld(World):
             return st
         if r.random() < self.cfg["fork_rate"] and self.cfg["sessions"] > 1:
             return {"op": "fork", "s": s, "to": (s + 1) % self.cfg["sessions"]}
+        forced = getattr(self, "_force", {}).pop(s, None)
+        if forced is not None:
+            return forced
         fam = _wchoice(r, [(k, w) for k, w in self.cfg["fam"].items() if w])
         ops = {"C01": C01_OPS, "C04": C04_OPS, "C17": C17_OPS}[fam]
         cands = [(o, self.cfg["ops"][o]) for o in ops if self.cfg["ops"][o]]
@@ -293,6 +296,12 @@ class TrackWorld(World):
         st = getattr(self, "_g_" + op)(r, m)
         st["op"] = st.get("op", op)
         st["s"] = s
+        if st["op"] == "via" and st.get("kind") == "loop" and r.random() < 0.7:
+            # a closed track is usually edited next: a coordinate written through the feature API
+            if not hasattr(self, "_force"):
+                self._force = {}
+            self._force[s] = {"op": "setitem_func", "s": s, "name": "a", "coord": r.choice(["x", "y"]),
+                              "func": "affine", "base": self._uval()}
         return st
 
     def _pick_name(self, r, m, existing=None):
@@ -443,6 +452,8 @@ class TrackWorld(World):
         st = {"shape": r.choice(EXPR_SHAPES), "out": self._pick_name(r, m), "a": self._pick_input(r, m),
               "b": self._pick_input(r, m), "c": self._pick_input(r, m),
               "lit": r.choice([2, 3, 0.5, 10]), "api": r.choice(["operate", "getitem"])}
+        if m.get("looped") and r.random() < 0.5:
+            st["shape"] = "xfrom"           # a coordinate written through the feature API on a closed track
         if st["shape"] == "extvar":
             st["kval"] = r.choice([2.0, 3.0, 0.5, -1.0, 10.0])
             st["a"] = r.choice(["x", "idx", st["a"]])
@@ -2124,6 +2135,7 @@ class TrackWorld(World):
             m["obs"][0]["z"] = m["obs"][-1]["z"]
             m["geo"] += 1
             self._retag(t, m, st.get("tag0", 10 ** 6))
+            m["looped"] = True
             self.probe("track_closed_by_loop")
             self._check_all("C04", "loop (first fix moved onto the last)")
             return
